@@ -36,6 +36,9 @@ theorem ofNat_eq_iff (m n : Nat) : UInt8.ofNat m = UInt8.ofNat n ↔ m % 256 = n
   · intro h; have := congrArg UInt8.toNat h; simpa [toNat_ofNat] using this
   · intro h; apply UInt8.toNat_inj.mp; simpa [toNat_ofNat] using h
 
+theorem byte_of_toNat (b : UInt8) (n : Nat) (h : b.toNat = n) : b = UInt8.ofNat n := by
+  rw [← h, ofNat_toNat]
+
 theorem shl_or (a b k : Nat) (h : b < 2 ^ k) : (a <<< k) ||| b = a * 2 ^ k + b := by
   rw [Nat.shiftLeft_eq, Nat.mul_comm, ← Nat.two_pow_add_eq_or_of_lt h, Nat.mul_comm]
 
